@@ -119,6 +119,83 @@ class Inter:
         return out
 
 
+def r3_tables(ctx, R, g, occurring):
+    """r3: required_properties is abstractly evaluated on IR components that contain one instance of every request class
+    at every position relative to the asked vertex; the result must contain every property the engine will request."""
+    from tfv import absint as A
+    from tfv import stdmodel as M
+    from . import C11 as B
+    C = ctx.core
+    R.rule("r3", "required_properties evaluated on sample IR: every request class at every position (own vertex, later vertex, "
+                 "fold post-filter, imported into a fold) is listed for the vertex that owns the property")
+    VI = "trustfall_core::interpreter::hints::vertex_info::InternalVertexInfo::"
+    I = M.intrinsics()
+    I[VI + "current_component"] = lambda ip, n, a: A.deref(a[0]).fields["component"]
+    I[VI + "current_vertex"] = lambda ip, n, a: A.deref(a[0]).fields["vertex"]
+
+    def lf(name):
+        return A.Struct(IR + "LocalField", {"field_name": name, "field_type": B.INT_NN})
+
+    def tag(vid, name):
+        return A.Enum(IR + "Argument", "Tag", [A.Enum(IR + "FieldRef", "ContextField", [B.cf(vid, name)])])
+
+    def var(name):
+        return A.Enum(IR + "Argument", "Variable", [A.Struct(IR + "VariableRef", {"variable_name": name, "variable_type": B.INT_NN})])
+
+    def op(kind, left, right=None):
+        return A.Enum(IR + "Operation", kind, [left] + ([right] if right is not None else []))
+
+    def sample():
+        inner = B.component(3, [B.vertex(3)], outputs={"b": B.cf(3, "inner_out")})
+        f = B.fold(2, 2, 3, inner)
+        f.fields["post_filters"] = A.VecV([op("GreaterThan", B.COUNT(), tag(1, "post1")), op("LessThan", B.COUNT(), tag(2, "post2")),
+                                           op("Equals", B.COUNT(), var("n"))])
+        f.fields["imported_tags"] = A.VecV([
+            A.Enum(IR + "FieldRef", "ContextField", [B.cf(1, "imp1")]), A.Enum(IR + "FieldRef", "ContextField", [B.cf(2, "imp2")]),
+            A.Enum(IR + "FieldRef", "FoldSpecificField", [A.Struct(IR + "FoldSpecificField", {"fold_eid": 9, "fold_root_vid": 9, "kind": B.COUNT()})])])
+        v1 = B.vertex(1, [op("Equals", lf("subj1"), tag(1, "own1")), op("LessThan", lf("subj1b"), var("x")), op("IsNotNull", lf("subj1c"))])
+        v2 = B.vertex(2, [op("LessThan", lf("subj2"), tag(1, "later1")), op("GreaterThan", lf("subj2b"), tag(2, "own2"))])
+        comp = B.component(1, [v1, v2], edges=[(1, B.edge(1, 1, 2))], folds=[(2, f)],
+                           outputs={"o1": B.cf(1, "out1"), "o2": B.cf(2, "out2"), "o1b": B.cf(1, "out1b")})
+        return comp, {1: v1, 2: v2}
+    expected = {
+        1: {"output": {"out1", "out1b"}, "filter-subject": {"subj1", "subj1b", "subj1c"},
+            "tag-in-vertex-filter": {"own1", "later1"}, "tag-in-fold-post-filter": {"post1"}, "imported-tag": {"imp1"}},
+        2: {"output": {"out2"}, "filter-subject": {"subj2", "subj2b"},
+            "tag-in-vertex-filter": {"own2"}, "tag-in-fold-post-filter": {"post2"}, "imported-tag": {"imp2"}},
+    }
+    for vid in (1, 2):
+        comp, vs = sample()
+        recv = A.Struct("FakeVertexInfo", {"component": comp, "vertex": vs[vid]})
+        try:
+            ip = A.Interp(C, I, max_steps=200000)
+            res = ip.call_fn(g, [recv])
+            got = []
+            for x in M.to_iter(res):
+                x = A.deref(x)
+                got.append(A.deref(x.fields["name"]) if isinstance(x, A.Struct) and "name" in x.fields else repr(x))
+        except A.Unsupported as e:
+            R.fail("r3", "unanalysable/vertex%d" % vid, C.loc(g["sp"]), "abstract evaluation of required_properties failed: %s (fail closed)" % e)
+            continue
+        except A.PanicReached as e:
+            R.fail("r3", "panic/vertex%d" % vid, C.loc(g["sp"]), "required_properties reaches a panic on the sample IR: %s" % e.what)
+            continue
+        R.check(len(got) == len(set(got)), "r3", "no-duplicates/vertex%d" % vid, C.loc(g["sp"]), "a property is listed twice: %s" % got)
+        for cls, names in sorted(expected[vid].items()):
+            if cls not in occurring:
+                continue
+            missing = sorted(names - set(got))
+            where = {"own1": "a tag used by a filter of the same vertex", "own2": "a tag used by a filter of the same vertex",
+                     "later1": "a tag used by a filter of a later vertex"}
+            R.check(not missing, "r3", "listed/%s/vertex%d" % (cls, vid), C.loc(g["sp"]),
+                    "the engine requests %s of vertex %d (class `%s`%s) but required_properties for that vertex lists only %s"
+                    % (missing, vid, cls, "".join(": " + where[m] for m in missing if m in where), sorted(got)),
+                    {"listed": sorted(got)})
+        others = set().union(*expected[3 - vid].values())
+        R.check(not (others & set(got)), "r3", "only-own-vertex/vertex%d" % vid, C.loc(g["sp"]),
+                "required_properties for vertex %d lists properties of the other vertex: %s" % (vid, sorted(others & set(got))))
+
+
 def run(ctx, R):
     C = ctx.core
     R.rule("r1", "every resolve_property call site has a classified request source (fail closed)")
@@ -169,6 +246,7 @@ def run(ctx, R):
                 "the engine requests properties of class `%s` (%s) but required_properties never reads %s: those "
                 "properties are missing from the hint" % (cls, "; ".join(occurring[cls][:3]), [m[0].split("::")[-1] for m in missing]),
                 {"sites": occurring[cls]})
+    r3_tables(ctx, R, g, occurring)
     # the result is restricted to the asked vertex: comparisons against the current vertex's vid
     cmp_vid = [n for n in walk(g["body"]) if n.get("k") == "bin" and n.get("op") == "==" and
                ("vertex_id" in ekey(n["l"]) + ekey(n["r"])) and ("vid" in ekey(n["l"]) + ekey(n["r"]))]
